@@ -717,6 +717,9 @@ func kindConv() kind {
 	fracs := []string{"0.000000001", "123456789.123456789", "120000000.000000001", "0.1", "0.5", "1.5", "0.0", "1.0",
 		"0.999999999", "1.000000001", "1.10", "0.3", "0.7", "4.35", "1.15", "2.675", "0.000000009", "8.000000007",
 		"9007199254740993.5", "99999999999.999999999", "123456789012345678901.123456789"}
+	// zero-padded spellings (fixed-width output of scripts) are decimal too
+	ints = append(ints, "010", "0100", "007", "00", "09", "0800", "0000000000500000000", "000000000001", "0777", "01234567")
+	fracs = append(fracs, "010.5", "00000120.25", "00.000000001", "0777.000000777")
 	malformed := []string{"-", "abc", "1.2.3", "-5", "1e3"}
 	ln := func(a, f, t string) string { return "conv " + a + " " + f + " " + t }
 	return kind{"conv",
@@ -744,6 +747,9 @@ func kindConv() kind {
 			}
 			if r.Intn(10) == 0 { // round numbers
 				ip = ip[:1] + strings.Repeat("0", nd-1)
+			}
+			if r.Intn(12) == 0 { // zero padded
+				ip = strings.Repeat("0", 1+r.Intn(3)) + ip
 			}
 			if r.Intn(2) == 0 {
 				return ln(ip, "nund", "fund")
